@@ -448,6 +448,9 @@ def run_sharded(spec, cases, render_case, machine_of, parallel=4, workers=4, tim
     Returns (reports_by_case: list of lists, stats)."""
     rendered = [render_case(c) for c in cases]
     order = sorted(range(len(cases)), key=lambda i: -len(rendered[i]))
+    # use all `parallel` TLC processes even when everything would fit one module: cap the shard size at total/parallel
+    total = sum(len(r) for r in rendered) + sum(len(t) for t in set(machine_of(c) for c in cases))
+    max_bytes = max(60_000, min(max_bytes, total // max(1, parallel) + 1))
     shards = []       # each: dict(idx=[...], size=int, machines={text: idx})
     for i in order:
         sz = len(rendered[i])
@@ -473,7 +476,10 @@ def run_sharded(spec, cases, render_case, machine_of, parallel=4, workers=4, tim
         parts = [rendered[i].replace('@MI@', str(sh['machines'][machine_of(cases[i])])) for i in sh['idx']]
         mod = ('---- MODULE CasesData ----\nEXTENDS Integers, Sequences, TLC\nMachines == <<\n%s\n>>\nCases == <<\n%s\n>>\n====\n'
                % (',\n'.join(mtexts), ',\n'.join(parts)))
-        return sh, tlc.run_tlc(spec, cfg, {'CasesData': mod}, workers=workers, timeout=timeout)
+        r = tlc.run_tlc(spec, cfg, {'CasesData': mod}, workers=workers, timeout=timeout)
+        sh['wall'] = round(r.wall, 1)
+        sh['bytes'] = len(mod)
+        return sh, r
 
     t0 = time.time()
     with ThreadPoolExecutor(max(1, min(parallel, len(shards) or 1))) as ex:
@@ -490,6 +496,7 @@ def run_sharded(spec, cases, render_case, machine_of, parallel=4, workers=4, tim
             elif rep.get('kind') == 'UNPARSED':
                 stats['errors'].append('unparsed report line: ' + rep.get('text', '')[:300])
     stats['wall'] = time.time() - t0
+    stats['shard_walls'] = [(sh.get('wall'), sh.get('bytes'), len(sh['idx'])) for sh, _ in results]
     return reports, stats
 
 
